@@ -29,6 +29,12 @@ CHECKS["C05"] = dict(
    note="Trusted: partition model; cell values limited to the per-type alphabets.",
    design="5/C05")
 
+CHECKS["C01"] = dict(
+   technique="stateless depth-first search over operation histories on live objects (explicit-state exploration, no state merging); differential invariant re-checked on every member after every step",
+   text="Every history of up to 3 (quick) / 4 (thorough) steps over 37 operations, each step applied to any member of the growing family (frames, groupers, group frames, typed views), from 4 initial frames including one built on caller-owned slices. After every step every member's full observation (Len, names, types, ColumnTypeMap, every cell through typed views, Err, Grouper.QFrames, View.ItemAt) and every argument object is compared with its observation at creation.",
+   note="Differential oracle, no model. Sound reuse of parent objects by children; a failure is replayed from scratch (or, if it only reproduces with sibling steps, with the complete search history) before it is reported.",
+   design="5/C01")
+
 NOT_YET = {}
 BASELINE_CMD = "for m in $(cat /w/out/gomods.txt); do MF=$(cd /repo/$m && . /w/out/goenv.sh && gomodflag); (cd /repo/$m && go test $MF -json -vet=off -count=1 -timeout 25m ./...); done"
 
